@@ -140,6 +140,13 @@ func (c *FnCtx) oblige(kind, label string, tags []string, guard, goal *Term, pos
 	if c.pass1 || c.inUnfold > 0 {
 		return
 	}
+	if c.spec != nil && c.depth == 0 {
+		if reason, ok := c.spec.AllowKinds[kind]; ok {
+			c.assumed["unchecked "+kind+" obligations in "+c.name+": "+reason] = true
+			c.assume(guard, goal)
+			return
+		}
+	}
 	if goal == TTrue || guard == TFalse {
 		// trivially discharged by construction; still count it
 		c.ordinals[kind]++
